@@ -3,6 +3,7 @@
 # the first property listed in its meta.json "caught_by"; prints one line per seed. /repo must be clean.
 cd /verif
 unset CARGO_TARGET_DIR
+SAVE=$(mktemp -d); cp -a /verif/evidence "$SAVE/evidence"; cp -a /verif/replays "$SAVE/replays" 2>/dev/null
 for d in seeded/*${1:-}*/; do
   n=$(basename "$d")
   c=$(python3 -c "import json;print(json.load(open('$d/meta.json'))['caught_by'][0])")
@@ -13,3 +14,4 @@ for d in seeded/*${1:-}*/; do
   git -C /repo checkout -- .
   echo "$n: $c exit=$rc violations=$(echo "$out" | grep -c '^VIOLATION') $(( $(date +%s) - t0 ))s"
 done
+rm -rf /verif/evidence /verif/replays; mv "$SAVE/evidence" /verif/evidence; [ -d "$SAVE/replays" ] && mv "$SAVE/replays" /verif/replays; rmdir "$SAVE" 2>/dev/null
